@@ -112,22 +112,43 @@ def stage_stress(pid, tier, seed, d, binp, st, ctx):
         viol.append(("stress_" + st["name"], rid, prop, why, rp))
         if len(viol) >= 10:
             break
-    # a small sample and the non-trivial count (runs in which an operation of the relevant API family ended)
+    # a small sample and the non-trivial count: the plan's own predicate applied to each run (streamed; at most
+    # the first 20000 runs are classified)
     sample = []
     keys = []
     apis = st.get("apis")
-    n = 0
+    pred = ctx.get("nontrivial")
+    def classify(run_id, evs):
+        if run_id is None or not evs:
+            return
+        if apis is not None:
+            ok = any(e.get("e") == "OpStart" and e.get("api") in apis for e in evs)
+        elif pred is not None:
+            try:
+                ok = bool(pred(evs))
+            except Exception:
+                ok = False
+        else:
+            ok = True
+        if ok:
+            keys.append("stress_%s_%s" % (st["name"], run_id))
+            if len(sample) < 2:
+                sample.append({"stage": "stress_" + st["name"], "run": run_id,
+                               "events": [e for e in evs if e.get("e") in ("OpStart", "OpEnd", "Joined")][:12]})
     with open(tr) as f:
-        cur = None
+        cur, evs, n = None, [], 0
         for line in f:
-            if '"e":"Reset"' in line:
-                cur = json.loads(line)["run"]
-            elif '"e":"OpStart"' in line:
-                ev = json.loads(line)
-                if apis is None or ev.get("api") in apis:
-                    keys.append("stress_%s_%s" % (st["name"], cur))
-                    if len(sample) < 2:
-                        sample.append({"stage": "stress_" + st["name"], "run": cur, "op": ev})
+            ev = json.loads(line)
+            if ev.get("e") == "Reset":
+                classify(cur, evs)
+                n += 1
+                if n > 20000:
+                    cur, evs = None, []
+                    break
+                cur, evs = ev["run"], []
+            else:
+                evs.append(ev)
+        classify(cur, evs)
     ctx["log"]("stress %s: %d runs, %d events on real threads, violations of %s: %d" % (st["name"], nruns, nev, sorted(props), len(seen)))
     return dict(coverage={"runs": nruns, "events": nev, "mix": mix, "seed": seed}, violations=viol, traces=nruns,
                 samples=sample, nontrivial_keys=sorted(set(keys)))
